@@ -55,4 +55,9 @@ type Segment struct {
 	In                           string
 	After, From, Before, Through string
 	Cond                         string
+	// segstate.go: State: variables whose value a return inside the segment carries; Up: take the
+	// Up-th statement list outside the innermost one; Args: the arguments of the first call
+	State []string
+	Up    int
+	Args  string
 }
